@@ -37,7 +37,7 @@ Theorem C05_open_inputs_ok : forall fuel W name d id p xin r c,
   /\ (C05.anonymous_name r = false \/ r = c)
   /\ exists pv iv,
        alookup p (w_provs W) = Some pv
-       /\ export big_fuel iv = Some xin
+       /\ export_t iv = Some xin
        /\ contains_unknowns iv = false
        /\ x_has_unknown xin = false
        /\ fst (validate (AccIn (pv_in pv)) iv) = true
@@ -53,7 +53,7 @@ Theorem C05_open_inputs_ok_env : forall W fuel root name d id p xin r c,
   /\ (C05.anonymous_name r = false \/ r = c)
   /\ exists pv iv,
        alookup p (w_provs W) = Some pv
-       /\ export big_fuel iv = Some xin
+       /\ export_t iv = Some xin
        /\ contains_unknowns iv = false
        /\ x_has_unknown xin = false
        /\ fst (validate (AccIn (pv_in pv)) iv) = true
